@@ -36,18 +36,21 @@ def dump(msg):
         items = []
         if t == T.B_MESSAGE_TYPE:
             items = [dump(m) for m in c]
-        elif t in (T.B_BOOL_TYPE, T.B_INT8_TYPE):
+        elif t == T.B_BOOL_TYPE:
             items = ["%02x" % (v & 0xFF) for v in c]
-        elif t in (T.B_INT16_TYPE, T.B_INT32_TYPE, T.B_INT64_TYPE, T.B_FLOAT_TYPE, T.B_DOUBLE_TYPE):
-            size = {T.B_INT16_TYPE: 2, T.B_INT32_TYPE: 4, T.B_INT64_TYPE: 8, T.B_FLOAT_TYPE: 4, T.B_DOUBLE_TYPE: 8}[t]
+        elif t in (T.B_INT8_TYPE, T.B_INT16_TYPE, T.B_INT32_TYPE, T.B_INT64_TYPE):
+            # integers by VALUE (a value outside the signed range of its type raises): what a Python caller would see
+            fmt = {T.B_INT8_TYPE: "<b", T.B_INT16_TYPE: "<h", T.B_INT32_TYPE: "<i", T.B_INT64_TYPE: "<q"}[t]
+            items = [struct.pack(fmt, v).hex() for v in c]
+        elif t in (T.B_FLOAT_TYPE, T.B_DOUBLE_TYPE):
+            size = 4 if t == T.B_FLOAT_TYPE else 8
             if isinstance(c, array.array):
-                raw = c.tobytes()  # exact bit patterns, as stored
+                raw = c.tobytes()  # exact bit patterns, as stored (keeps NaN payloads)
                 if sys.byteorder != "little":
                     a2 = array.array(c.typecode, c); a2.byteswap(); raw = a2.tobytes()
                 items = [raw[i:i + size].hex() for i in range(0, len(raw), size)]
             else:
-                fmt = {T.B_INT16_TYPE: "<h", T.B_INT32_TYPE: "<i", T.B_INT64_TYPE: "<q", T.B_FLOAT_TYPE: "<f", T.B_DOUBLE_TYPE: "<d"}[t]
-                items = [struct.pack(fmt, v).hex() for v in c]
+                items = [struct.pack("<f" if size == 4 else "<d", v).hex() for v in c]
         elif t == T.B_POINT_TYPE:
             items = [struct.pack("<2f", *p).hex() for p in c]
         elif t == T.B_RECT_TYPE:
@@ -143,16 +146,6 @@ class Parser:
 def E(text):
     """error marker for an output column (columns are space separated)"""
     return "ERR:" + str(text).replace(" ", "_").replace("\n", "_")
-
-
-def recv_exact(conn, n):
-    buf = b""
-    while len(buf) < n:
-        chunk = conn.recv(n - len(buf))
-        if not chunk:
-            raise IOError("connection closed after %d of %d bytes" % (len(buf), n))
-        buf += chunk
-    return buf
 
 
 def main():
